@@ -960,7 +960,9 @@ class Process(StateMachine, persistence.Savable, metaclass=ProcessStateMachineMe
             for cleanup in self._cleanups or []:
                 try:
                     cleanup()
-                except Exception:
+                except (Exception, asyncio.CancelledError):
+                    # (a cleanup is called synchronously: a ``CancelledError`` that comes out of it -- say it looked at a
+                    # cancelled future -- is a failure of that cleanup, not the cancellation of the running task)
                     self.logger.exception('Process<%s>: Exception calling cleanup method %s', self.pid, cleanup)
             self._cleanups = None
         finally:
